@@ -38,13 +38,18 @@ impl<T> Uninit<T> {
 
 impl<T: IoBuf> IoBuf for Uninit<T> {
     fn as_init(&self) -> &[u8] {
-        self.0.as_init() // this is always &[] but we can't return &[] since the pointer will be different
+        // This is always empty, but we can't return `&[]` since the pointer will be
+        // different: it has to sit where `as_uninit` starts, i.e. right after the
+        // bytes that are already initialized (including the ones filled in through
+        // this view).
+        let init = self.0.as_init();
+        &init[init.len()..]
     }
 }
 
 impl<T: IoBufMut> IoBufMut for Uninit<T> {
     fn as_uninit(&mut self) -> &mut [MaybeUninit<u8>] {
-        let len = (*self).buf_len();
+        let len = self.0.buf_len();
         &mut self.0.as_uninit()[len..]
     }
 
@@ -59,8 +64,11 @@ impl<T: IoBufMut> IoBufMut for Uninit<T> {
 
 impl<T: SetLen + IoBuf> SetLen for Uninit<T> {
     unsafe fn set_len(&mut self, len: usize) {
+        // The view always starts at the end of the initialized bytes, so `len` is
+        // relative to the bytes that have been filled in so far.
+        let filled = self.0.buf_len();
         unsafe {
-            self.0.set_len(len);
+            self.0.set_len(filled + len);
         }
     }
 }
